@@ -103,7 +103,7 @@ theorem cg_full_orth (hB : SPD B) (u : Update) (hu : u = .FR ∨ u = .PRP) {s : 
     exact (inv k).p_eq_zero hB (inner_self_eq_zero.mp hm.symm)
 
 /-- **finite termination**: after `dim E` passes the residual is exactly zero -/
-theorem cg_finite_termination [Module.Finite ℂ E] (hB : SPD B) (u : Update)
+theorem cgIter_finite_termination [Module.Finite ℂ E] (hB : SPD B) (u : Update)
     (hu : u = .FR ∨ u = .PRP) {s : CGState ℂ E} (h : CGInv B b s) (h0 : s.p = s.r) :
     (cgIter 𝒪 u B (Module.finrank ℂ E) s).r = 0 := by
   by_contra hne
